@@ -14,7 +14,27 @@ class Color(enum.Enum):
     G = "g"
 
 
+class Stamp(enum.Enum):
+    EPOCH = 0
+    LATER = 1577934245
+
+
+class Span(enum.Enum):
+    SHORT = "P1DT00H00M00S"
+    NAME = "g"
+
+
+ENUM_SOURCES = [Color.R, Color.G, Stamp.EPOCH, Stamp.LATER, Span.SHORT, Span.NAME]
 EXTRA_T = [datetime.datetime, datetime.date, datetime.time, datetime.timedelta, uuid.UUID, Color, complex]
+
+
+def union_targets():
+    """unions of builtin targets: the flags must only restrict there too (the strict stage is what makes a flagged parse
+    pick the same argument as the unflagged one)"""
+    from utype import Rule
+    from typing import Union, List
+    return [Rule.parse_annotation(x) for x in (Union[int, str], Union[int, float], Union[float, int], Union[str, int], Union[Decimal, int, str],
+                                               Union[List[int], str], Union[bool, int], Union[bytes, str], Union[int, None])]
 EXTRA_V = [datetime.datetime(2020, 1, 2, 3, 4, 5), datetime.date(2020, 1, 2), datetime.time(3, 4, 5), datetime.timedelta(seconds=90),
            "2020-01-02", "2020-01-02 03:04:05", "2020-01-02T03:04:05Z", "03:04:05", 1577934245, 1577934245.5, "1577934245",
            "12345678-1234-5678-1234-567812345678", 1, "g", "R", "P1DT2H", "1:30:00", b"2020-01-02", Decimal("90.5"), True, None,
@@ -145,6 +165,8 @@ def judge(t, v):
                 return "no_data_loss: %r (with a time of day) became the date %r" % (v, r[1])
             if isinstance(v, (bytes, bytearray)) and not valid_utf8(v) and (t in DECODING or t in EXTRA_T):
                 return "no_data_loss: bytes that are not valid UTF-8 (%r) were decoded and became %r" % (v, r[1])
+        if nec and isinstance(v, enum.Enum) and not isinstance(v, (int, str)) and isinstance(t, type) and not isinstance(v, t):
+            return "no_explicit_cast: the Enum member %r (no primitive group) converted to %s: %r" % (v, t.__name__, r[1])
         if nec and t in TGROUP:
             gv, gt = group(v), TGROUP[t]
             allowed = gv == gt or (gv == "boolean" and gt == "number") or (gv == "number" and t is bool and v in (0, 1)) or \
@@ -156,7 +178,10 @@ def judge(t, v):
 
 def run_judge(i_seed):
     rng = random.Random(i_seed)
-    if rng.random() < 0.25:
+    k0 = rng.random()
+    if k0 < 0.1:
+        t, v = rng.choice(EXTRA_T + [str, bytes, int, float]), rng.choice(ENUM_SOURCES)
+    elif k0 < 0.4:
         t, v = rng.choice(EXTRA_T), rng.choice(EXTRA_V + [source_value(rng)])
     else:
         t, v = PYT[rng.choice(TARGETS)], source_value(rng)
